@@ -1,0 +1,59 @@
+//go:build verif
+
+// Package verifhook holds instrumentation for runtime verification, only active with build tag verif.
+package verifhook
+
+import "sync"
+
+// BudgetExceeded is the panic value when a loop ticks more often than the budget that was set
+type BudgetExceeded struct {
+	Site  string
+	Ticks int
+}
+
+var (
+	mu      sync.Mutex
+	ticks   = map[string]int{}
+	budget  int
+	perSite map[string]int
+)
+
+// SetBudget sets the max number of ticks per site (0 = unlimited) and resets the counters
+func SetBudget(n int) {
+	mu.Lock()
+	defer mu.Unlock()
+	budget = n
+	perSite = nil
+	ticks = map[string]int{}
+}
+
+// SetSiteBudget overrides the budget for one site (until the next SetBudget)
+func SetSiteBudget(site string, n int) {
+	mu.Lock()
+	defer mu.Unlock()
+	if perSite == nil {
+		perSite = map[string]int{}
+	}
+	perSite[site] = n
+}
+
+// Ticks returns the number of ticks of a site since the last SetBudget
+func Ticks(site string) int {
+	mu.Lock()
+	defer mu.Unlock()
+	return ticks[site]
+}
+
+// Tick counts one loop iteration at a site
+func Tick(site string) {
+	mu.Lock()
+	ticks[site]++
+	n, b := ticks[site], budget
+	if sb, ok := perSite[site]; ok {
+		b = sb
+	}
+	mu.Unlock()
+	if b > 0 && n > b {
+		panic(BudgetExceeded{site, n})
+	}
+}
